@@ -92,6 +92,23 @@ def extract(keydir):
     src["coordinate_size"] = dict(DebugCredentialCertificateEcc.COORDINATE_SIZE)
     src["hash_sizes"] = dict(RotMetaEcc.HASH_SIZES)
     src["dar_versions"] = {v: issubclass(c, dar_packet.DebugAuthenticateResponseECC) for v, c in dar_packet._version_mapping.items()}
+    # EdgeLock container version 2: the AHAB certificate and its parts
+    from spsdk.image.ahab.ahab_certificate import AhabCertificate
+    from spsdk.image.ahab.ahab_data import AHABSignAlgorithmV2, AHABSignHashAlgorithmV2
+    from spsdk.image.ahab.ahab_signature import ContainerSignature
+    from spsdk.image.ahab.ahab_srk import SRKData, SRKRecordV2
+    src["v2"] = {
+        "cert": [AhabCertificate.format(), AhabCertificate.fixed_length(), AhabCertificate.TAG, AhabCertificate.VERSION],
+        "rec": [SRKRecordV2.format(), SRKRecordV2.fixed_length(), SRKRecordV2.TAG, list(SRKRecordV2.VERSION)],
+        "data": [SRKData.format(), SRKData.fixed_length(), SRKData.TAG, SRKData.VERSION],
+        "sig": [ContainerSignature.format(), ContainerSignature.fixed_length(), ContainerSignature.TAG, ContainerSignature.VERSION],
+        "perm_debug": AhabCertificate.create_permissions(["debug"]), "perm_data_size": AhabCertificate.PERMISSION_DATA_SIZE,
+        "uuid_size": AhabCertificate.UUID_SIZE, "params_len": SRKRecordV2.CRYPTO_PARAMS_LEN,
+        "algs": list(AHABSignAlgorithmV2.tags()), "hashes": list(AHABSignHashAlgorithmV2.tags()),
+        "key_sizes": {str(k): list(v) for k, v in SRKRecordV2.KEY_SIZES.items()},
+        "ecc_type": {str(k.value if hasattr(k, "value") else k): v for k, v in SRKRecordV2.ECC_KEY_TYPE.items()},
+        "rsa_type": {str(k): v for k, v in SRKRecordV2.RSA_KEY_TYPE.items()},
+    }
     return {"soccs": soccs, "families": fams, "supported": DCC.get_supported_families(), "source": src}
 
 
@@ -120,9 +137,16 @@ def handler(payload):
         cls = type(d).__name__
         if isinstance(d, DebugCredentialEdgeLockEnclaveV2):
             c = d.certificate
+            pk, sg = c.public_key_0, c.signature_0
+            pkd = pk.srk_data
+            kk = guarded(pk.get_public_key)
             return {"cls": cls, "socc": d.socc, "socu": d.socu, "beacon": d.beacon, "uuid": (c._uuid or b"").hex(),
                     "perm": c._permissions, "perm_data": c.permission_data.hex(), "sig_off": c.signature_offset,
-                    "fuse": c.fuse_version}
+                    "fuse": c.fuse_version, "len": c.length,
+                    "pk": [pk.length, pk.version, pk.hash_algorithm.tag, pk.key_size, pk.srk_flags, pk.crypto_params.hex()],
+                    "pkd": [pkd.length, pkd.srk_id, pkd.data.hex()] if pkd is not None else None,
+                    "sig_len": sg.length if sg is not None else None, "sig": (sg.signature_data or b"").hex() if sg is not None else "",
+                    "key": key_j(kk[1]) if kk[0] == "ok" else err(kk)}
         rm = guarded(lambda: d.rot_meta.export())
         return {"cls": cls, "major": d.version.major, "minor": d.version.minor, "socc": d.socc, "uuid": d.uuid.hex(),
                 "socu": d.cc_socu, "vu": d.cc_vu, "beacon": d.cc_beacon,
@@ -166,6 +190,8 @@ def handler(payload):
         out["sign"] = "ok" if s[0] == "ok" else err(s)
         if not v2:
             out["sig"] = (dc.signature or b"").hex()
+        else:
+            out["sig"] = (dc.certificate.signature_0.signature_data or b"").hex()
         e = guarded(dc.export, seconds=30)
         if e[0] != "ok":
             out["export"] = err(e)
@@ -326,7 +352,7 @@ def handler(payload):
                 return o
             r = guarded(run_history, seconds=60)
             results.append({"history": r[1] if r[0] == "ok" else err(r)})
-        elif op == "parse":
+        elif op in ("parse", "parsev2"):
             data = bytes.fromhex(c["data"])
             p = guarded(lambda: DebugCredentialCertificate.parse(data), seconds=30)
             if p[0] != "ok":
